@@ -386,21 +386,34 @@ def fixed_witness(acc: Acc) -> None:
 	gram_rules = importlib.import_module('data.syntax.gram_rules').gram_rules
 	gram_tokenizer = importlib.import_module('data.syntax.gram_tokenizer').gram_tokenizer
 	P, PS = R.Pattern.make, R.Patterns
-	g = R.Rules({
-		'entry': PS([P('r1'), P('r2'), P('"\\n"')]),
-		'r1': PS([P('"-"')]),
-		'r2': PS([P('"kw"'), PS([PS([P('"a"'), P('"b"')], op=R.Operators.Or)]), P('"*"')]),
-	})
-	text = g.pretty() + '\n'
-	case = {'obligation': 'witness', 'printed': text}
-	try:
-		g2 = R.Rules.from_ast(SyntaxParser(gram_rules(), gram_tokenizer()).parse(text, 'entry').simplify())
-		if rules_view(g, exact) != rules_view(g2, exact):
-			acc.violation('roundtrip/differs', f'witness rule set changed by print+parse:\n{text}', case)
-	except Exception as e:  # noqa
-		acc.violation('roundtrip/raise', f'{type(e).__name__}: {e}', case)
-	acc.see('obligation', 'roundtrip')
-	acc.case('witness', {'printed': text})
+	wide = [f'stmt_kind_{i:02d}' for i in range(14)]
+	fixed = [
+		R.Rules({
+			'entry': PS([P('r1'), P('r2'), P('"\\n"')]),
+			'r1': PS([P('"-"')]),
+			'r2': PS([P('"kw"'), PS([PS([P('"a"'), P('"b"')], op=R.Operators.Or)]), P('"*"')]),
+		}),
+		# a keyword table: an alternation directly under a rule whose printed form is far longer than a hundred characters, a long
+		# sequence, and a long alternation inside a group
+		R.Rules({
+			'entry': PS([P('stmt'), P('"\\n"')]),
+			'stmt': PS([P(w) for w in wide], op=R.Operators.Or),
+			'line': PS([P(w) for w in wide]),
+			'grouped': PS([P('"kw"'), PS([PS([P(w) for w in wide], op=R.Operators.Or)]), P('"*"')]),
+			**{w: PS([P(f'"{w}_keyword"')]) for w in wide},
+		}),
+	]
+	for g in fixed:
+		text = g.pretty() + '\n'
+		case = {'obligation': 'witness', 'printed': text}
+		try:
+			g2 = R.Rules.from_ast(SyntaxParser(gram_rules(), gram_tokenizer()).parse(text, 'entry').simplify())
+			if rules_view(g, exact) != rules_view(g2, exact):
+				acc.violation('roundtrip/differs', f'witness rule set changed by print+parse:\n{text[:600]}', case)
+		except Exception as e:  # noqa
+			acc.violation('roundtrip/raise', f'{type(e).__name__}: {str(e)[:300]}', case)
+		acc.see('obligation', 'roundtrip')
+		acc.case('witness:' + sig_of(text), {'printed': text[:300]})
 
 
 def shard(ctx: Ctx, acc: Acc) -> None:
